@@ -205,10 +205,10 @@ if __name__ == "__main__":
         "the swarm side (Network.Connectedness, Conn, Stream) is a harness stub implementing core/network; the identify service, the peerstore (pstoremem), the event bus, protobuf / multiaddr / key / envelope decoding are the real code",
         "atomic steps of the model = the sections id.go protects with connsMu and addrMu (consumeMessage reads Connectedness and rewrites the address TTLs under addrMu; so does Disconnected); the Go scheduler is assumed sequentially consistent at that granularity",
         "ideal signatures (c08.SymCrypto): an envelope verifies iff its signature was issued by the envelope's key for exactly (domain, payload type, payload); peer.IDFromPublicKey and ExtractPublicKey enter as functions id_of / inline_key",
-        "the address book is C09's abstract book (expired = absent) whose per-peer cap on unconnected addresses does not bind; histories in which it would bind are judged by the monitor only",
+        "the address book is C09's abstract book (expired = absent) with AddAddrs carrying pstoremem's per-peer cap (Model.c_add); among entries with the same expiry the implementation evicts by map iteration order, the model the first: a case is compared observation by observation up to its first eviction and judged by the monitor throughout",
         "addresses are abstracted to (transport address number, loopback/private/public/other class, /p2p suffix); the class the harness writes is what manet's predicates answer for the real multiaddr",
         "time: TTL classes and expiry by the identify timeout steps only; Go int unbounded",
-        "clause 13 (the address book's own per-peer cap, addr_book.go) is judged on the implementation's traces only; the model is the uncapped book (theorem ..._partial: proved with the cap disabled)",
+        "IdentifyWait: safety for every schedule + enabledness of the releasing steps are proved; that an answer or the timeout eventually occurs (scheduler fairness, transport honouring deadlines) is exercised by the harness only",
     ]
     standard_flow(ctx, dict(
         consts=consts,
